@@ -1,6 +1,7 @@
 import Driver.States
 import Driver.AgentCause
 import Driver.Wait
+import Driver.Bridge
 open Lean
 
 /-- line protocol: one JSON op per input line, one canonical JSON answer per line -/
@@ -17,5 +18,6 @@ def main (args : List String) : IO UInt32 := do
   match args with
   | ["states"] => loop stdin Driver.States.handle; return 0
   | ["wait"] => loop stdin Driver.Wait.handle; return 0
+  | ["bridge"] => loop stdin Driver.Bridge.handle; return 0
   | ["cause"] => loop stdin Driver.AgentCause.handle; return 0
   | _ => IO.eprintln "usage: rpmodel <suite>"; return 2
